@@ -1,9 +1,10 @@
 """C14 - size limits and section accounting (E3, shares the C01 generator)."""
 from __future__ import annotations
 
-from typing import Any, Dict, List, Tuple
+from typing import Any, Dict, List, Optional, Tuple
 
-from ..explore import Stats
+from ..explore import Stats, Violation, pmap
+from ..world import World
 from . import codec
 
 ID = "C14"
@@ -13,9 +14,58 @@ TECHNIQUE = ("bounded-exhaustive enumeration of messages (all sequences of <= k 
              "library's decoder and by an independent strict RFC 1035 decoder")
 
 
+def send_cases(tier: str) -> List[codec.Case]:
+    """Messages handed to the instance's sender (Zeroconf.async_send): a first datagram growing byte by byte up to the
+    8966-byte limit followed by a second one, messages of several ordinary datagrams, and single small ones."""
+    IN, FL = codec.IN, codec.FL
+    small = ("A", "h.local.", FL, 120, codec.IP4)
+    out: List[codec.Case] = []
+    for total in list(range(1455, 1465)) + list(range(8955, codec.MAX_ABS + 1)):
+        n = total - 12 - len(b"\x01t\x05local\x00") - 10
+        txt = ("TXT", "t.local.", FL, 4500, b"\x07" * n)
+        for placed in ([(txt, "an")], [(txt, "an"), (small, "an")], [(small, "an"), (txt, "an"), (small, "ad")],
+                       [(("Q", "t.local.", 16, IN), "q"), (txt, "an"), (small, "an")]):
+            for m in codec.MODES[:4]:
+                out.append(codec.Case(m, placed))
+    many = [(("PTR", "_a._tcp.local.", IN, 4500, f"inst{i}._a._tcp.local."), "an") for i in range(120)] + \
+           [(("TXT", f"inst{i}._a._tcp.local.", FL, 4500, bytes([i]) * 40), "ad") for i in range(120)]
+    for m in codec.MODES[:4]:
+        out.append(codec.Case(m, many))
+        out.append(codec.Case(m, [(small, "an")]))
+    return out
+
+
+def send_point(case_json: Dict[str, Any]) -> Tuple[Optional[str], int]:
+    """Everything packets() yields must leave the socket, in order, when the message goes through the instance's sender."""
+    case = codec.Case.from_json(case_json)
+    with World() as w:
+        host = w.new_zeroconf()
+        want = codec.build(case).packets()
+        n0 = len(w.net.trace)
+        host.zc.async_send(codec.build(case))
+        w.settle()
+        got = [s.data for s in w.net.trace[n0:] if s.host == host.name]
+        excs = w.exceptions()
+    if excs:
+        return f"exception in the event loop: {excs[0]}", len(want)
+    if got != want:
+        return (f"the builder produced datagrams of {[len(d) for d in want]} bytes, the sender put {[len(d) for d in got]} "
+                f"bytes on the wire"), len(want)
+    return None, len(want)
+
+
 def run(tier: str, seed: int) -> Tuple[Stats, str, List[str], Dict[str, Any]]:
     stats = Stats()
     sizes = codec.run_codec(ID, tier, stats)
+    cases = [c.as_json() for c in send_cases(tier)]
+    for cj, (problem, n) in zip(cases, pmap(send_point, cases)):
+        stats.executions += 1
+        stats.transitions += n
+        stats.outcome(f"send-path:{'bad' if problem else 'ok'}:{min(n, 3)}")
+        if problem and stats.room({"check": "send-path"}):
+            stats.violations.append(Violation(f"C14 send path {codec.summary(codec.Case.from_json(cj))}: {problem}",
+                                              {"send_case": cj}, {"check": "send-path"}))
+    sizes["send_path"] = len(cases)
     stats.states = len(stats.outcomes)
     stats.notes["space_sizes"] = sizes
     stats.sample(codec.Case(codec.MODES[1], [(codec.entries_full()[2], "an"), (codec.entries_full()[70], "ad")]).as_json())
@@ -33,4 +83,15 @@ def run(tier: str, seed: int) -> Tuple[Stats, str, List[str], Dict[str, Any]]:
 
 
 def replay(data: Dict[str, Any]) -> int:
+    if "send_case" in data:
+        problem, _ = send_point(_plain(data["send_case"]))
+        if problem:
+            print("VIOLATION reproduced:", problem)
+            return 1
+        print("no violation on this tree")
+        return 0
     return codec.replay_case(ID, data)
+
+
+def _plain(x: Any) -> Any:
+    return x
